@@ -316,7 +316,7 @@ theorem prepareSync_exhaustion_iff {hash : Bytes → Nat} (debug : Bool) {S : St
     · exact ⟨k, d, g2, g3, g4⟩
   · intro ⟨k, d, g2, g3, g4⟩
     rcases prepareSync_total debug seqn hB hC hs hlt with ⟨res, h'⟩ | ⟨mm', _, _, h', _⟩
-    · obtain ⟨_, _, _, _, _, _, _, _, _, _, _, _, _, _, _, f⟩ := prepareSync_facts hB hC h'
+    · obtain ⟨_, _, _, _, _, _, _, _, _, _, _, _, _, _, _, f, _, _⟩ := prepareSync_facts hB hC h'
       have := f k d g2 g3
       rw [g4] at this
       cases this
